@@ -12,6 +12,14 @@ Families (each explored with the choice-tree explorer, its own deviation bound):
   tmpl     hand-written DAG templates for multi-input rule patterns (SlicesSplit, ScatterAllDynamic,
            two-reshape MatMul) with their parameters
   corpus   ONNX backend node tests lifted (inputs -> initializers ...), recorded outputs as extra oracle
+  wrapped_folded  one node with ALL operands constant inside every wrapper form, including the composed / repeated
+           ones (two If / Loop / call instances whose sibling bodies reuse inner names; constant-condition If
+           inside a function / Loop body / If branch), x constants as Constant nodes or branch-owned initializers
+           x inline {True, False}
+  single_cform    one node x Constant attribute form (value_float(s)/value_int(s)/value_string(s), sparse_value) x
+           primary value runtime input / constant
+  regpair_old     partial-evaluator op -> partial-evaluator op at the opsets below the first version of the node
+           forms the evaluators emit (Constant value_int(s): 12, axes-as-input: 13)
 """
 from __future__ import annotations
 
@@ -36,6 +44,10 @@ WRAPM = [("none", "as-is", "const"),
          ("if_then", "as-is", "input"), ("if_then", "init_in", "const"),
          ("loop", "outer", "const"), ("loop", "init", "const"), ("loop", "init_in", "const"),
          ("func", "outer", "const"), ("func", "init", "const"), ("func", "input", "const")]
+# composed / repeated wrappers (appended: picks of the entries above are unchanged)
+WRAPM_EXT = [(w, "as-is", "const") for w in mz.WRAPS_EXT] + [("if_then*2", "init", "const"), ("func_if", "init", "const"),
+                                                             ("if_then*2", "outer", "const"), ("loop*2", "init", "const")]
+WRAPM = WRAPM + WRAPM_EXT
 OP_SRCS = ["const", "init", "init_in", "input"]
 
 
@@ -51,14 +63,58 @@ def live_ops():
     return mz.live_alphabet()["ops"]
 
 
-_Q_PRODUCERS = None
+_PRODUCERS_OF = {}
+
+
+def producers_of(kind, first_per_op=False):
+    """configs producing a value of a kind that only exists as a node output (Q sequence, O optional) from an F2 value"""
+    if kind not in _PRODUCERS_OF:
+        _PRODUCERS_OF[kind] = [c.id for c in mz.CONFIGS if c.kout == kind and "F2" in c.kin]
+    if first_per_op:
+        seen, out = set(), []
+        for cid in _PRODUCERS_OF[kind]:
+            key = (mz.BY_ID[cid].op, len(mz.BY_ID[cid].ops))   # first config per (op, arity)
+            if key not in seen:
+                seen.add(key)
+                out.append(cid)
+        return out
+    return _PRODUCERS_OF[kind]
 
 
 def q_producers():
-    global _Q_PRODUCERS
-    if _Q_PRODUCERS is None:
-        _Q_PRODUCERS = [c.id for c in mz.CONFIGS if c.kout == "Q" and "F2" in c.kin]
-    return _Q_PRODUCERS
+    return producers_of("Q")
+
+
+_CFG_OPSETS = {}
+
+
+def cfg_opsets(c):
+    """Opset menu of a config (entry 0 = its default).  For ops with a partial evaluator in the live registry the menu
+    is extended with every version at which the op's schema changed (down to the oldest opset the op exists in), the
+    opsets just below the first version of the node forms the evaluators emit (Constant value_int(s): 12 -> 11; axes
+    as input / Split(split input): 13 -> 12; Split(num_outputs): 18 -> 17) and the newest opset the runtimes support.
+    A config whose form does not exist at an opset does not build (skipped as gen-invalid and counted)."""
+    if c.id not in _CFG_OPSETS:
+        menu = list(c.opsets)
+        if c.op in set(mz.live_alphabet()["registry"]):
+            since = sorted({sch.since_version for sch in onnx.defs.get_all_schemas_with_history()
+                            if sch.name == c.op and sch.domain == ""})
+            extra = sorted(set(v for v in since if v <= 23) | {v for v in (11, 12, 17, 23) if v >= since[0]})
+            menu += [v for v in extra if v not in menu]
+        _CFG_OPSETS[c.id] = menu
+    return _CFG_OPSETS[c.id]
+
+
+def _cform_applies(c, steps_ops, xkind_t, xsrc, form, srcs_const=("const", "outer")):
+    """Is there an operand written as a Constant node to which the attribute form applies?"""
+    for j, pj in enumerate(c.pooled):
+        vi, src = steps_ops[j]
+        if src in srcs_const and mz.const_form_applies(c.ops[pj][vi], form):
+            return True
+    if xsrc == "const" and xkind_t is not None:
+        label, t, shape = xkind_t
+        return mz.const_form_applies({"t": t, "s": mz.x_concrete(shape)}, form)
+    return False
 
 
 def _operand_choices(ch, c, label, srcs=OP_SRCS, values=True):
@@ -75,7 +131,7 @@ LEAN_WRAPM = [WRAPM[0], WRAPM[1], WRAPM[3], WRAPM[4], WRAPM[9], WRAPM[13]]
 LEAN_OPTS = {"num_iterations": [2, 1], "onnx_shape_inference": [True, False], "inline": [True, False]}
 
 
-def _tail_choices(ch, opsets=(18,), tier="quick", wrap=True, api=True, lean=False):
+def _tail_choices(ch, opsets=(18,), tier="quick", wrap=True, api=True, lean=False, extras=False):
     """wrapper / opset / API / options / entry / value_info dimensions (all deviations).
     lean: the reduced menus used where the deviation bound is 2 (pairs of deviations)."""
     w = ch.choose("wrap", LEAN_WRAPM if lean else WRAPM) if wrap else WRAPM[0]
@@ -88,7 +144,12 @@ def _tail_choices(ch, opsets=(18,), tier="quick", wrap=True, api=True, lean=Fals
             opts[k] = v
     entry = "proto" if lean else ch.choose("entry", ["proto", "ir"])
     vi = False if lean else ch.choose("value_info", [False, True])
-    return dict(wrap=list(w), opset=opset, api=a, opts=opts, entry=entry, vi=vi)
+    d = dict(wrap=list(w), opset=opset, api=a, opts=opts, entry=entry, vi=vi)
+    if extras:
+        # Constant attribute form of the operands written as Constant nodes; two graph outputs aliasing one value
+        d["cform"] = ch.choose("cform", mz.C_FORMS)
+        d["outs"] = ch.choose("outs", ["last", "dup"])
+    return d
 
 
 def make_drv_single(lean=False):
@@ -98,15 +159,19 @@ def make_drv_single(lean=False):
         kind = ch.choose("kind", _kinds(c))
         steps = []
         xkind = kind
-        if kind == "Q":
-            pid = ch.all("qprod", q_producers())
+        if kind in mz.PRODUCED_KINDS:
+            pid = ch.all("qprod" if kind == "Q" else "oprod", producers_of(kind))
             steps.append({"cfg": pid, "ops": [[0, "const"] for _ in mz.BY_ID[pid].pooled]})
             xkind = "F2"
         xi = ch.choose("xshape", list(range(len(mz.X_SHAPES[xkind]))))
         xsrc = ch.choose("xsrc", mz.X_SRCS)
         steps.append({"cfg": cid, "ops": _operand_choices(ch, c, "op", srcs=["const", "init_in"] if lean else OP_SRCS)})
         it = dict(fam="single", steps=steps, x=[xkind, xi], xsrc=xsrc)
-        it.update(_tail_choices(ch, opsets=c.opsets, lean=lean))
+        it.update(_tail_choices(ch, opsets=c.opsets if lean else cfg_opsets(c), lean=lean, extras=not lean))
+        if it.get("cform", "value") != "value" and not _cform_applies(
+                c, steps[-1]["ops"], mz.X_SHAPES[xkind][xi], xsrc, it["cform"],
+                srcs_const=("const", "outer") if it["wrap"][1] in ("as-is", "outer") else ("outer",)):
+            raise explore.Prune()
         return it
     return drv
 
@@ -118,11 +183,17 @@ def drv_single_folded(ch):
     """Every config with ALL operands constant (so the node reaches the generic folding path) x both constant sources of
     the primary value x the size limits exhaustively (cost 0): a seeded defect needed an omitted middle optional input
     (Clip(c, , max)) together with a small output_size_limit."""
-    cid = ch.all("cfg", [c.id for c in mz.CONFIGS if "Q" not in _kinds(c)[:1]])
+    cid = ch.all("cfg", [c.id for c in mz.CONFIGS])
     c = mz.BY_ID[cid]
     kind = _kinds(c)[0]
+    steps = []
+    if kind in mz.PRODUCED_KINDS:
+        # sequence / optional typed values built from constants: producer -> consumer, everything constant
+        pid = ch.all("qprod" if kind == "Q" else "oprod", producers_of(kind, first_per_op=True))
+        steps.append({"cfg": pid, "ops": [[0, "const"] for _ in mz.BY_ID[pid].pooled]})
+        kind = "F2"
     xsrc = ch.all("xsrc", ["const", "init"])
-    steps = [{"cfg": cid, "ops": [[0, "const"] for _ in c.pooled]}]
+    steps.append({"cfg": cid, "ops": [[0, "const"] for _ in c.pooled]})
     it = dict(fam="single_folded", steps=steps, x=[kind, 0], xsrc=xsrc)
     opts = {}
     for k in ("input_size_limit", "output_size_limit"):
@@ -134,10 +205,114 @@ def drv_single_folded(ch):
     return it
 
 
+WF_WRAPS = ["if_then", "loop", "func"] + mz.WRAPS_EXT
+
+
+def _representative_cfgs():
+    """first config of every (op, number of outputs, first primary kind)"""
+    seen, out = set(), []
+    for c in mz.CONFIGS:
+        key = (c.op, c.nout, _kinds(c)[0])
+        if key not in seen:
+            seen.add(key)
+            out.append(c.id)
+    return out
+
+
+KEEP_ALIVE = "Where.rpp"   # Where(runtime condition, v, v): type-generic, never folded
+
+
+def make_drv_wrapped_folded(representative):
+    """One node followed by Where(runtime cond, v, v) (so that the node's - possibly folded - value is a live
+    INTERMEDIATE value of the wrapped body, with an inner name) inside every wrapper form (plain, repeated twice with sibling bodies reusing the inner names,
+    constant-condition If nested in a function / Loop body / If branch) x where the node's inputs live (all constant:
+    Constant nodes next to the node | initializers owned by the enclosing graph body; or the primary value a runtime
+    input and the other operands body-owned initializers) x inline {True, False}, all exhaustive.  This is where the
+    folder inlines constant-condition If nodes, registers folded initializers in the graph that holds the node, and
+    moves branch-owned initializers."""
+    cfgs = _representative_cfgs() if representative else [c.id for c in mz.CONFIGS]
+
+    def drv(ch):
+        cid = ch.all("cfg", cfgs)
+        c = mz.BY_ID[cid]
+        kind = _kinds(c)[0]
+        steps = []
+        pkind = kind
+        if kind in mz.PRODUCED_KINDS:
+            pid = producers_of(kind)[0]
+            steps.append({"cfg": pid, "ops": [[0, "const"] for _ in mz.BY_ID[pid].pooled]})
+            kind = "F2"
+        w = ch.all("wrap", WF_WRAPS)
+        csrc = ch.all("csrc", ["const", "init", "x+init"])
+        inline = ch.all("inline", [True, False])
+        if csrc == "x+init" and not c.pooled:
+            raise explore.Prune()   # no constant operand at all
+        steps.append({"cfg": cid, "ops": [[0, "const"] for _ in c.pooled]})
+        ref_step = len(steps) - 1
+        ok = c.out_kind(pkind)
+        if ok is not None and ok not in mz.PRODUCED_KINDS:   # any tensor-typed value
+            steps.append({"cfg": KEEP_ALIVE, "ops": []})
+        it = dict(fam="wrapped_folded", steps=steps, x=[kind, 0], xsrc="in" if csrc == "x+init" else csrc, ref_step=ref_step)
+        it.update(dict(wrap=[w, "as-is" if csrc == "const" else "init", "const"], opset=18 if 18 in c.opsets else c.opsets[0],
+                       api="optimize", opts={} if inline else {"inline": False}, entry="proto", vi=False))
+        return it
+    return drv
+
+
+def drv_single_cform(ch):
+    """Every config x Constant attribute form (attr: value_float(s) / value_int(s) / value_string(s); sparse_value) x the
+    primary value a runtime input | a Constant node (then the node is folded from attribute-form constants)."""
+    cid = ch.all("cfg", [c.id for c in mz.CONFIGS if _kinds(c)[0] not in mz.PRODUCED_KINDS])
+    c = mz.BY_ID[cid]
+    kind = _kinds(c)[0]
+    form = ch.all("cform", mz.C_FORMS[1:])
+    xsrc = ch.all("xsrc", ["in", "const"])
+    ops = [[0, "const"] for _ in c.pooled]
+    if not _cform_applies(c, ops, mz.X_SHAPES[kind][0], xsrc, form):
+        raise explore.Prune()   # no Constant node of this model can be written in this form
+    it = dict(fam="single_cform", steps=[{"cfg": cid, "ops": ops}], x=[kind, 0], xsrc=xsrc, cform=form)
+    it.update(dict(wrap=list(WRAPM[0]), opset=18 if 18 in c.opsets else c.opsets[0], api="optimize", opts={}, entry="proto",
+                   vi=False))
+    return it
+
+
+def regpair_old_list():
+    """producer -> consumer with BOTH ops in the live partial-evaluator registry (first two configs per consumer op,
+    representative producers)"""
+    reg = set(mz.live_alphabet()["registry"])
+    out = []
+    n_op = {}
+    prods = [p for p in _producers(True) if p.op in reg]
+    for c in mz.CONFIGS:
+        if c.op not in reg:
+            continue
+        n_op[c.op] = n_op.get(c.op, 0) + 1
+        if n_op[c.op] > 2:
+            continue
+        for p in prods:
+            k = _compatible(p, c)
+            if k is not None:
+                out.append((p.id, c.id, k))
+    return out
+
+
+def drv_regpair_old(ch):
+    """(consumer operand VALUES are a deviation dimension: bound 0 in quick = defaults, bound 1 in thorough)"""
+    pid, cid, k = ch.all("pair", regpair_old_list())
+    p, c = mz.BY_ID[pid], mz.BY_ID[cid]
+    opset = ch.all("opset", [11, 12, 17])
+    xi = ch.all("xshape", [0, 1] if len(mz.X_SHAPES[k]) > 1 else [0])   # static | leading dim symbolic
+    steps = [{"cfg": pid, "ops": [[0, "const"] for _ in p.pooled]},
+             {"cfg": cid, "ops": _operand_choices(ch, c, "c", srcs=["const"], values=True)}]
+    it = dict(fam="regpair_old", steps=steps, x=[k, xi], xsrc="in", outs="last")
+    it.update(dict(wrap=list(WRAPM[0]), opset=opset, api="optimize", opts={}, entry="proto", vi=False))
+    return it
+
+
 def _compatible(p, c):
     """First primary kind of producer p whose output kind the consumer c accepts."""
     for k in _kinds(p):
-        if k == "Q":
+        if k in mz.PRODUCED_KINDS:
             continue
         ok = p.out_kind(k)
         if ok is not None and ok in c.kin:
@@ -327,8 +502,9 @@ def drv_tmpl(ch):
     elif name == "if_nested_fold":
         # constants folded inside a wrapped body whose value feeds an optimizer-relevant op
         op = ch.all("op", ["Add", "Mul", "Concat"])
-        w = ch.all("wrap", ["if_then", "if_else", "loop", "func"])
+        w = ch.all("wrap", ["if_then", "if_else", "loop", "func"] + mz.WRAPS_EXT)
         csrc = ch.all("csrc", ["const", "init", "outer", "init_in"])
+        no_inline = ch.all("inline", [True, False]) is False
         att = {"axis": 0} if op == "Concat" else {}
         nodes = [{"op": "Neg", "i": [_c(f([[1.0, 2.0, 3.0]]), csrc)]},
                  {"op": op, "a": att, "i": [{"x": "x"}, {"n": 0}]},
@@ -352,6 +528,8 @@ def drv_tmpl(ch):
     t = _tail_choices(ch, wrap=False)
     t.pop("wrap")
     it.update(t)
+    if name == "if_nested_fold" and no_inline:
+        it["opts"] = dict(it["opts"], inline=False)
     return it
 
 
@@ -375,7 +553,8 @@ def item_spec(item):
             ops.append([vi, s])
         steps.append({"cfg": st["cfg"], "ops": ops})
     return mz.chain_spec(steps, xsel=tuple(item["x"]), xsrc=item.get("xsrc", "in"), wrap=wrap, wsrc=wsrc,
-                         opset=item.get("opset", 18), outs=item.get("outs", "last"), keep_vi=item.get("vi", False))
+                         opset=item.get("opset", 18), outs=item.get("outs", "last"), keep_vi=item.get("vi", False),
+                         cform=item.get("cform", "value"), ref_step=item.get("ref_step"))
 
 
 def item_label(item):
@@ -504,6 +683,9 @@ def plan_c03(tier, with_corpus=True):
         items += _run(make_drv_pair(rulepair_list(False), True, "rulepair", consumer_srcs=["const"]), 1, fam, "rulepair")
         items += _run(make_drv_shape3(shape3_list(True), False), 0, fam, "shape3")
         items += _run(drv_tmpl, 0, fam, "tmpl")
+        items += _run(make_drv_wrapped_folded(True), 0, fam, "wrapped_folded")
+        items += _run(drv_single_cform, 0, fam, "single_cform")
+        items += _run(drv_regpair_old, 0, fam, "regpair_old")
         lifts = ["init"]
     else:
         items += _run(drv_single, 1, fam, "single")
@@ -513,6 +695,9 @@ def plan_c03(tier, with_corpus=True):
         items += _run(make_drv_pair(rulepair_list(True), True, "rulepair"), 1, fam, "rulepair")
         items += _run(make_drv_shape3(shape3_list(False), True), 1, fam, "shape3")
         items += _run(drv_tmpl, 1, fam, "tmpl")
+        items += _run(make_drv_wrapped_folded(False), 0, fam, "wrapped_folded")
+        items += _run(drv_single_cform, 0, fam, "single_cform")
+        items += _run(drv_regpair_old, 1, fam, "regpair_old")
         lifts = ["init", "asis", "const", "init_in"]
     if with_corpus:
         names = corpus_names("node")
@@ -561,6 +746,8 @@ def abstract_value(ts):
         "[1,1]" if a.shape == (1, 1) else f"rank{a.ndim}"
     if a.size == 0:
         return shp
+    if ts["t"] == "str":
+        return f"{shp}:str"
     if a.dtype == np.bool_:
         return f"{shp}:{'true' if a.all() else 'false' if not a.any() else 'mixed'}"
     if a.size == 1:
@@ -607,6 +794,10 @@ def nondefault_params(item, diff_ops=None):
                     if isinstance(av, dict):
                         av = abstract_value(av)
                     out.append(f"{nd['op']}.{an}={av}".replace(" ", ""))
+    if item.get("cform", "value") != "value":
+        out.append(f"cform={item['cform']}")
+    if item.get("outs", "last") == "dup":
+        out.append("outs=dup")
     if item.get("opset", 18) != 18:
         out.append(f"opset={item['opset']}")
     if item.get("api", "optimize") not in ("optimize",):
@@ -648,10 +839,19 @@ def minimise_item(item, still_fails, budget=24):
             c = copy.deepcopy(it); c["api"] = "optimize"; yield c
         if it.get("vi"):
             c = copy.deepcopy(it); c["vi"] = False; yield c
+        if it.get("cform", "value") != "value":
+            c = copy.deepcopy(it); c["cform"] = "value"; yield c
         if "steps" not in it:
             return
         if list(it.get("wrap", WRAPM[0])) != list(WRAPM[0]):
             c = copy.deepcopy(it); c["wrap"] = list(WRAPM[0]); yield c
+            w0 = it["wrap"][0]
+            base, inner_if, reps = mz.parse_wrap(w0)
+            if reps > 1:     # one instance instead of two
+                c = copy.deepcopy(it); c["wrap"][0] = w0.partition("*")[0]; yield c
+            if inner_if:     # the plain outer wrapper / the plain constant-condition If
+                c = copy.deepcopy(it); c["wrap"][0] = base + ("*2" if reps > 1 else ""); yield c
+                c = copy.deepcopy(it); c["wrap"][0] = "if_then" + ("*2" if reps > 1 else ""); yield c
         if it.get("xsrc", "in") != "in":
             c = copy.deepcopy(it); c["xsrc"] = "in"; yield c
         if it["x"][1] != 0:
@@ -660,12 +860,20 @@ def minimise_item(item, still_fails, budget=24):
             c = copy.deepcopy(it); c["outs"] = "last"; yield c
         if len(it["steps"]) > 1:
             # drop the last step (defect in the producer) / the first step (defect in the consumer)
-            c = copy.deepcopy(it); c["steps"] = it["steps"][:-1]; c["outs"] = "last"; yield c
+            c = copy.deepcopy(it); c["steps"] = it["steps"][:-1]; c["outs"] = "last"
+            if c.get("ref_step") is not None and c["ref_step"] >= len(c["steps"]):
+                c.pop("ref_step")
+            yield c
             first = mz.BY_ID[it["steps"][0]["cfg"]]
             ok = first.out_kind(it["x"][0])
             nxt = mz.BY_ID[it["steps"][1]["cfg"]]
             if ok in mz.X_SHAPES and ok in nxt.kin:
-                c = copy.deepcopy(it); c["steps"] = it["steps"][1:]; c["x"] = [ok, 0]; yield c
+                c = copy.deepcopy(it); c["steps"] = it["steps"][1:]; c["x"] = [ok, 0]
+                if c.get("ref_step") is not None:
+                    c["ref_step"] -= 1
+                    if c["ref_step"] < 0:
+                        c.pop("ref_step")
+                yield c
         for si, st in enumerate(it["steps"]):
             for oi, (vi, s) in enumerate(st.get("ops", [])):
                 if s != "const":
@@ -745,10 +953,27 @@ def run_item(item):
     return built, rec
 
 
-def root_cause_tag(item, comp, dsig):
+def root_cause_tag(item, comp, dsig, param=None):
     """Structural tags for triaged root causes whose generic keys would otherwise vary with the consumer op.
-    Only facts of the (minimised) case are used; returns None when no tag applies."""
-    if "steps" not in item or not dsig:
+    Only facts of the (minimised) case (and, for C04, the class of the validity problem) are used; returns None when
+    no tag applies."""
+    if "steps" in item:
+        wrap0 = item.get("wrap", ["none"])[0]
+        branch_init = item["wrap"][1] == "init" or item.get("xsrc") == "init"
+    elif "spec" in item:
+        wrap0 = item["spec"].get("wrap", "none")
+        branch_init = any(r is not None and r.get("src") == "init" for nd in item["spec"]["nodes"] for r in nd["i"])
+    else:
+        return None
+    wbase, winner_if, _ = mz.parse_wrap(wrap0)
+    not_inlined = item.get("opts", {}).get("inline") is False or item.get("api", "optimize") not in ("optimize", "optimize_ir")
+    if wbase == "func" and winner_if and not_inlined and str(comp).startswith(("fold", "pipeline")) \
+            and branch_init and "If" in (dsig or "If").partition("=>")[0] \
+            and param and ("Nodes in a function must be topologically sorted" in param or "wf::function" in param):
+        # constant-condition If inside a function body (function not inlined): the branch's initializers are moved to
+        # the function's graph, which cannot hold initializers (C03 sees the same case as a model that no longer loads)
+        return "if-inlined-in-function|branch-initializers-lost"
+    if not dsig or "steps" not in item:
         return None
     if str(comp) == "rule:CastIdentity" and item.get("wrap", ["none"])[0] == "func":
         # Cast<to=@attr> inside a function body that is not inlined (inline=False, or rewrite() alone)
@@ -757,6 +982,15 @@ def root_cause_tag(item, comp, dsig):
     rem, add = set(rem.split(",")), set(add.split(","))
     if not str(comp).startswith(("fold", "pipeline")):
         return None
+    if param and item.get("opset", 18) < 12 and "checker:Constant:Unrecognized attribute value_int" in param:
+        # Constant(value_int / value_ints) exists from opset 12 on; one tag per evaluator (removed op)
+        return "evaluator:" + "+".join(sorted(x for x in rem if x)) + "|emits-Constant-value_int(s)-below-opset-12"
+    if wbase == "func" and not winner_if and not_inlined:
+        last = mz.BY_ID[item["steps"][item.get("ref_step", -1) if item.get("ref_step") is not None else -1]["cfg"]]
+        if last.attrs and last.op in rem:
+            # node inside a (not inlined) function whose attributes are references to the function's attributes is
+            # evaluated with the attribute defaults
+            return "ref-attribute-in-function|node-folded-with-attribute-defaults"
     if item.get("opset", 18) < 18 and (rem & {"SplitToSequence", "ConcatFromSequence"}) and (add & {"Split", "Unsqueeze", "Squeeze"}):
         # Split(split input / num_outputs), Unsqueeze/Squeeze(axes input) emitted into a model whose opset predates them
         return "sequence-evaluators|emit-newer-opset-node-form"
